@@ -258,6 +258,14 @@ func c01Assign(c *c01) {
 		check("aug-alias", t.init+"\n"+t.alias+"\nz = "+t.stmt+" + vh.v("+n+", [2])\n", lg, map[string]string{"y": "[1]", "z": "[1,2]"}, "")
 		check("aug-alias", t.init+"\n"+t.alias+"\nz = "+t.stmt+" * vh.v("+n+", 2)\n", lg, map[string]string{"y": "[1]", "z": "[1,1]"}, "")
 	}
+	// a binary operator builds a new object even when one operand is empty
+	for _, e := range []struct{ src, z string }{
+		{"z = x + vh.v(0, [])", "[1,5]"}, {"z = vh.v(0, []) + x", "[1,5]"}, {"z = x * vh.v(0, 1)", "[1,5]"}, {"z = vh.v(0, 1) * x", "[1,5]"}, {"z = x[vh.v(0, 0):]", "[1,5]"},
+		{"z = x + vh.v(0, [])\nz = z + []", "[1,5]"},
+	} {
+		check("aug-alias", "x = [1]\n"+e.src+"\nz += [5]\n", []string{"0"}, map[string]string{"x": "[1]", "z": e.z}, "")
+	}
+	check("aug-alias", "s = {1}\nz = s | vh.v(0, set())\nz |= {5}\n", []string{"0"}, map[string]string{"s": "set{1}", "z": "set{1,5}"}, "")
 	check("aug-alias", "x = (1,)\ny = x\nx += vh.v(0, (2,))\n", []string{"0"}, map[string]string{"x": "(1,2)", "y": "(1)"}, "")
 	check("aug-alias", "x = (1, 2, 3)[:1]\ny = x\nx += vh.v(0, (2,))\nw = y\n", []string{"0"}, map[string]string{"x": "(1,2)", "w": "(1)"}, "")
 	for _, so := range []struct{ op, res string }{{"|", "set{1,2,3}"}, {"&", "set{2}"}, {"-", "set{1}"}, {"^", "set{1,3}"}} {
